@@ -19,7 +19,7 @@ def run_case(s, ro_txt, kind, kw, mid=2, pretty=False, ctx=None, noise_rng=None)
     return s.step(ro, msg, ctx)
 
 
-HOSTILE_NAMES = ['NEWS,AM,S1', 'S1', 's1', 'S1 ', '5" x 7\' card', 'S10', ' S1', 'S01', 'B"][itemID=\'B\'][itemID="B',
+HOSTILE_NAMES = ['NEWS,AM,S1', '5" x 7\' card', 'S1', 's1', 'S1 ', 'S10', ' S1', 'S01', 'B"][itemID=\'B\'][itemID="B',
                  '{6B29FC40-CA47}']
 HOSTILE_UNKNOWN = 'SPORT,AM,S1'       # not in any running order, but its last component is
 # IDs longer than the protocol's nominal 128 characters that differ only after that length
